@@ -22,7 +22,12 @@ CLAIMS = {
          "Store wrappers (create/update/delete) are assumed: create fails if the object exists. Interleavings at API-call granularity, histories and restarts are not decided by contracts. AllocateInSubnetsAndIPRange, ConfigurePool and the scheduler-plugin layer are not yet part of this claim."),
  "C02": ("proof", "AllocateInSubnetWithKey re-keys exactly one entry keyed with the old key whose pool lists the subnet, the most recently updated one, and changes nothing else; ReserveIP re-keys exactly the entries of the old key. Both proved for all table states.",
          "Plugin-level stickiness (filter/bind choosing the reserved IP) not yet under contract; histories not decided."),
- "C04": ("proof", "crdIpam.Release and UpdateAttr act only on an (ip,key) match and leave every other entry unchanged (whole-view frame).", "Plugin-level liveness checks (podRunning, resync) not yet under contract."),
+ "C04": ("proof", "crdIpam.Release/ReleaseIPs/UpdateAttr act only on (ip,key) matches and leave every other entry unchanged; plugin-level Release (API release path): if the API server would report the pod alive with the stored uid, nothing in the store or at the provider changes; podRunning reports running for every pod the API server reports alive (cache staleness cannot override the API server); entries of other keys are never touched.",
+         "unbind (event path), resync pass, syncIP and ConfigurePool-vs-live-pod not yet under contract. Interleavings not decided."),
+ "C03": ("proof", "parseReleasePolicy proved against the documented decision table (a pool annotation always means never; otherwise the release-policy annotation; default otherwise); podRunning/runningAndUidMatch: 'not running' is concluded only from not-found, uid mismatch or a finished phase and any other error counts as running; reserveIP never deletes an object and releaseIP frees only entries of the given key.",
+         "unbindDpPod/unbindNoneDpPod decision table and resync pass not yet under contract; histories not decided."),
+ "C10": ("proof", "Plugin-level Release: whenever it frees an IP whose stored node is non-empty and a cloud provider is configured, the provider has acknowledged the unassign of that IP before (ghost ProvNode); cloudProviderAssignIP/UnAssignIP report success only for an acknowledged reply.",
+         "Cloud provider behaviour assumed (pkg/ipam/cloudprovider/zz_contracts_verif.go). allocateIP/unbind/resync ordering not yet under contract."),
  "C05": ("proof", "After every contracted crdIpam operation, on success and on failure, memory and the ghost Store agree on owner, policy, node and uid of every allocated IP and no free IP has an object (synced), relative to the assumed store wrappers with nondeterministic failure.",
          "Crash points are not enumerated; ConfigurePool (reload) and the multi-IP allocation are not yet part of this claim."),
  "C06": ("proof", "AllocateInSubnet hands out only an IP that was free and whose pool lists the node subnet, and returns ErrNoEnoughIP only if no free IP's pool lists it.", "Filter side (NodeSubnetsByIPRanges, plugin filter) not yet under contract."),
